@@ -11,6 +11,30 @@ let mm : mdat option ref = ref None
 let ml : mdat option ref = ref None
 let tb : stbl ref = ref { sample_sizes = []; uniform_size = N0; chunk_offsets = [] }
 
+let b2s b = if b then "1" else "0"
+
+let name_string (l : coq_N list) : string =
+  if l = [] then "-" else S.concat "" (L.map (fun x -> Printf.sprintf "%02x" (int_of_n x)) l)
+
+let top_string (r : topbox list Base.res) : string =
+  match r with
+  | Base.Ok [] -> "o:-"
+  | Base.Ok l ->
+    "o:" ^ S.concat ";" (L.map (fun t -> match t with
+        | TBox (name, sp, size) -> Printf.sprintf "%s:%d:%d" (name_string name) (int_of_n sp) (int_of_n size)
+        | TMdat (m, size) -> Printf.sprintf "6d646174:%d:%d:%d:%s:%d:%d" (int_of_n m.coq_StartPos) (int_of_n size)
+                               (int_of_n m.coq_StartPos) (b2s m.coq_LargeSize) (L.length m.coq_Data) (int_of_n m.lazyDataSize)) l)
+  | Base.Err -> "e"
+  | Base.Panic -> "p"
+  | Base.OutOfFuel -> "FUEL"
+
+let parse_tops (s : string) : C08Spec.boxdesc list =
+  L.map (fun d -> match split_on ':' d with
+      | [name; large; plen] ->
+        { C08Spec.bname = L.map (fun c -> n_of_int (Char.code c)) (L.init (S.length name) (S.get name));
+          C08Spec.blarge = (large = "1"); C08Spec.bplen = n_of_int (int_of_string plen) }
+      | _ -> failwith "bad top") (split_on ';' s)
+
 let parse_chunks (s : string) : chunk list =
   if s = "-" then []
   else L.map (fun c -> match split_on ':' c with
@@ -18,7 +42,6 @@ let parse_chunks (s : string) : chunk list =
       | _ -> failwith "bad chunk") (split_on ';' s)
 
 let orc_of s = L.map n_of_int (ints_of_csv s)
-let b2s b = if b then "1" else "0"
 
 let dec_string (lazy_ : bool) (start_pos : int) (orc : coq_N list) : string * mdat option =
   let r = { rpos = n_of_int start_pos; rorc = orc } in
@@ -72,6 +95,17 @@ let () =
            if a = lenc && b = menc then Printf.printf "OK %s\n" id
            else Printf.printf "MISMATCH %s encode model_lazy=%s model_mem=%s\n" id a b
          | _ -> Printf.printf "MISMATCH %s encode no-model-context\n" id)
+      | ["W"; id; filehex; z; orc; tops; mt; lt] ->
+        let f = bytes_of_hex filehex in
+        let zf = (z = "1") in
+        let fuel = nat_of_int (L.length f / 8 + 4) in
+        let r () = { rpos = n_of_int 0; rorc = orc_of orc } in
+        let a = top_string (decode_file_top fuel false f zf (n_of_int 0) (r ())) in
+        let b = top_string (decode_file_top fuel true f zf (n_of_int 0) (r ())) in
+        let hyp = tops <> "-" && C08Spec.layout_at f (n_of_int 0) (parse_tops tops) in
+        if a <> mt || b <> lt then Printf.printf "MISMATCH %s walk model_mem=%s model_lazy=%s\n" id a b
+        else if tops <> "-" && not hyp then Printf.printf "MISMATCH %s walk layout_at-false-on-generated-file\n" id
+        else Printf.printf "OK %s%s\n" id (if hyp then " H" else "")
       | ["T"; id; sizes; uni; offs] ->
         tb := { sample_sizes = L.map n_of_int (ints_of_csv sizes); uniform_size = n_of_int (int_of_string uni);
                 chunk_offsets = L.map n_of_int (ints_of_csv offs) };
